@@ -70,9 +70,18 @@ def long_cases(draw, tier):
         rows = draw(st.lists(st.integers(0, Lg - 1), min_size=r, max_size=r, unique=True))
         for t, i in enumerate(rows):
             A[i] = C[t] * 2.0 ** -t
+    if sh >= 8 and draw(st.integers(0, 3)) == 0:
+        # one dominant singular value (a common offset on top of full-rank unit noise): the small singular values are
+        # well separated from each other but tiny relative to sigma_1
+        off = draw(st.sampled_from([1e5, 1e6, 1e7]))
+        A = off * np.stack([np.ones((Lg, sh)), np.zeros((Lg, sh)), np.zeros((Lg, sh)), np.zeros((Lg, sh))], axis=-1) \
+            + rng.standard_normal((Lg, sh, 4))
+        r = sh
     if draw(st.booleans()):
         A = np.ascontiguousarray(ref.conjT(A))
     R = r if draw(st.integers(0, 2)) else draw(st.integers(r, min(sh, r + 3)))     # rank == R is outside the known-finding class
+    if r == sh and sh >= 8:
+        R = draw(st.integers(2, 4))
     A = A * 10.0 ** draw(st.sampled_from([0, 0, -6, 5]))
     return {"A": np.ascontiguousarray(A), "kind": f"long:rank{r}", "R": R,
             "algo": draw(st.sampled_from(["rand_qsvd", "pass_eff_qsvd"])),
@@ -141,6 +150,15 @@ def check_rsvd(case):
     obound = max(C_ORTH * (m + n) * U_ * amp, ORTH_FLOOR)
     out.le(site + ":U orthonormal columns", du, obound)
     out.le(site + ":V orthonormal columns", dv, obound)
+    if ("rep_nonzero" in tags or "near_repeated_nonzero" in tags) and "0<rank<R" not in tags and rank >= 1:
+        # inside the known-finding class KF-C12-2 the loss follows u * sigma_1 / (smallest gap of the non-zero singular
+        # values, the last one's distance to zero included); orders of magnitude beyond that law is a different defect
+        allg = [float(nzv[i] - nzv[i + 1]) for i in range(rank - 1)] + [float(nzv[-1])]
+        gmin = min(allg)
+        if gmin > 1e-13 * s1:
+            law = C_ORTH * (m + n) * U_ * s1 / gmin
+            out.le(site + ":U orthonormal up to the u*sigma_1/gap law", du, max(law, ORTH_FLOOR), f"sigma_1/gap={s1 / gmin:.2e}", tags=())
+            out.le(site + ":V orthonormal up to the u*sigma_1/gap law", dv, max(law, ORTH_FLOOR), f"sigma_1/gap={s1 / gmin:.2e}", tags=())
     out.true(site + ":s non-negative", np.all(s >= 0), f"{s}")
     out.le(site + ":s non-increasing", float(np.max(np.diff(s))) if R > 1 else 0.0, slack * s1 + 1e-300)
     out.le(site + ":interlacing s_i <= sigma_i", float(np.max(s - sref[:R])), slack * s1 + 1e-300,
